@@ -91,15 +91,13 @@ def sphere_rule(prog, rep, fn, b, beta):
                 and st.targets[0].attr == "sphere_points"]
     if len(sp_store) != 1 or not isinstance(sp_store[0].value, ast.Name):
         raise AnalysisError(f"{q}: expected self.sphere_points = <local>")
-    var = sp_store[0].value.id
-    rd = rd_of(fn)
-    defs = rd.reaching(var, sp_store[0])
+    from vstat.terms import guarded_alts
+    bg = builder(prog, fn, inline=True, guarded=True)
     two = ("cmp", "==", nd, ("const", 2))
     seen = {"circle": False, "nsphere": False}
-    for d in defs:
-        t = b.def_term(d)
-        pc = pcs.of(d.stmt)
-        site = fn.where(d.stmt)
+    for pc, t in guarded_alts(bg.term(sp_store[0].value, sp_store[0])):
+        pc = tuple(pc) + tuple(pcs.of(sp_store[0]))
+        site = fn.where(sp_store[0])
         # (an in-place ``points *= beta`` on a freshly built, unshared NSphere array is behaviour preserving; sharing is C01.nsphere:own-points)
         if not (t[0] == "bin" and t[1] == "*"):
             rep.fail("C01.sphere", f"{q}:scale", site, f"sphere points must be beta * unit directions, found {show(t)[:120]}")
